@@ -1222,7 +1222,7 @@ func elideMany(args []string) error {
 			fmt.Printf("shared-names\t%q\t%s\n", in, res)
 		}
 	}
-	for _, nrules := range []int{5, 62, 63, 64, 65, 70, 130} {
+	for _, nrules := range []int{5, 57, 58, 59, 60, 61, 62, 63, 64, 65, 70, 130} {
 		var rules []lexer.SimpleRule
 		for i := 0; i < nrules; i++ {
 			rules = append(rules, lexer.SimpleRule{Name: fmt.Sprintf("K%d", i), Pattern: fmt.Sprintf("@k%d@", i)})
